@@ -528,6 +528,10 @@ impl<T: SizedShape, L: LenShape> Shape for FlatVec<T, L> {
             }
             arr!(0, 1, 2, 3, 4, 5, 6);
         }
+        if r == 0xF7 {
+            // reserved route: an iterator that does not know its length (size_hint().0 == 0)
+            return vec::FromIterator(xs.iter().map(T::from_val).filter(|_| true)).emplace_unchecked(bytes);
+        }
         vec::FromIterator(xs.iter().map(T::from_val)).emplace_unchecked(bytes)
     }
     fn mutate(&mut self, path: &[u16], op: &Op) -> OpOut {
